@@ -21,6 +21,11 @@ ERASE_CALLS = {
     'conv',
 }
 
+def _subst(t, a, b):
+    if t == a: return b
+    if isinstance(t, tuple): return tuple(_subst(x, a, b) for x in t)
+    return t
+
 class Norm:
     def __init__(self, root_kind):
         self.root_kind = root_kind
@@ -62,6 +67,13 @@ class Norm:
             if b[0] == 'mayload_opt' and variant == 'Some': return ('stored', b[1], b[2], b[3])
             if b[0] == 'rcall' and variant in ('Ok', 'Some'):
                 return self.payload(b)
+            # map fusion: element i of collect(map(X, f)) is f(element i of collect(X)) when f is a single-outcome pure closure
+            if variant == 'Some' and name == '0' and b[0] == 'iternext' and b[1][0] == 'iter' and b[1][1][0] == 'collect':
+                src = b[1][1][1]
+                if src[0] == 'call' and src[1].endswith('Iterator::map') and len(src[2]) == 2 and src[2][1][0] == 'lambda' and len(src[2][1][3]) == 1 and not src[2][1][3][0][0]:
+                    lam = src[2][1]; ret = lam[3][0][1]
+                    if ret[0] != 'abort':
+                        return self.renorm(_subst(ret, ('bound', lam[1], 0), self._elem(src[2][0], b[2])))
             return ('v', b, variant, name)
         if k == 'sload':
             key = N(t[2]) if t[2] is not None else None
@@ -126,6 +138,26 @@ class Norm:
         if k == 'idx': return ('idx', N(t[1]), N(t[2]))
         return t
 
+    def _elem(self, src, i):
+        # normalised element i of collect(src) (src already normalised)
+        b = ('iternext', ('iter', ('collect', src)), i)
+        if src[0] == 'call' and src[1].endswith('Iterator::map') and len(src[2]) == 2 and src[2][1][0] == 'lambda' and len(src[2][1][3]) == 1 and not src[2][1][3][0][0] and src[2][1][3][0][1][0] != 'abort':
+            lam = src[2][1]
+            return self.renorm(_subst(lam[3][0][1], ('bound', lam[1], 0), self._elem(src[2][0], i)))
+        return ('v', b, 'Some', '0')
+
+    def renorm(self, t):
+        # re-simplify an already normalised term after a substitution: field / variant projections of constructors and tuples
+        if not isinstance(t, tuple) or not t: return t
+        if t[0] == 'f' and len(t) == 3: return self.field(self.renorm(t[1]), t[2])
+        if t[0] == 'v' and len(t) == 4:
+            b = self.renorm(t[1])
+            if b[0] == 'adt' and b[2] == t[2]:
+                for n, v in b[3]:
+                    if n == t[3]: return v
+            return ('v', b, t[2], t[3])
+        return tuple(self.renorm(x) if isinstance(x, tuple) else x for x in t)
+
     def field(self, b, name):
         if b == ('INFO',):
             if name == 'sender': return ('SENDER',)
@@ -140,6 +172,7 @@ class Norm:
         if b[0] == 'adt':
             for n, v in b[3]:
                 if n == name: return v
+        if b[0] == 'tup' and isinstance(name, str) and name.isdigit() and int(name) < len(b[1]): return b[1][int(name)]
         return ('f', b, name)
 
     def payload(self, b):
